@@ -1,14 +1,13 @@
 (* The glue around the BMP state machine as the end-to-end engine sees it
    (src/units/bmp_tcp_in/{unit.rs accept loop, router_handler.rs, metrics.rs,
-   state_machine/metrics.rs}): the unit-level connection counters, and what the
-   per-router series of GET /metrics show for a router that comes back.
-   Definitions only; driven by the same operations as Pipe/PipeModel.v. *)
+   state_machine/metrics.rs}, src/comms.rs): the unit-level connection counters
+   of GET /metrics. Definitions only; driven by the operations of Pipe/PipeModel.v. *)
 From stdpp Require Import gmap.
 From Coq Require Import NArith.
 From RV Require Import Ingress.IngressModel Rib.RibModel Bmp.BmpModel Pipe.PipeModel.
 
-(* ---- unit level: BmpTcpInMetrics.connection_{accepted,lost}_count and the map
-   BmpStateMachineMetrics.routers whose size is rendered as bmp_num_connected_routers ---- *)
+(* BmpTcpInMetrics.connection_{accepted,lost}_count and the map
+   BmpStateMachineMetrics.routers whose size is rendered as bmp_num_connected_routers *)
 Record ucount := MkUc {
   uc_live : gset N;       (* routers with an open connection *)
   uc_known : gset N;      (* routers that have an entry in BmpStateMachineMetrics.routers *)
@@ -18,10 +17,11 @@ Record ucount := MkUc {
 Definition uc_init : ucount := MkUc ∅ ∅ 0 0.
 
 (* An entry of BmpStateMachineMetrics.routers is created by the first status
-   report of the state machine, which is the change of state of the accepted
-   Initiation message; it is removed by remove_router_metrics only, which
-   read_from_router calls on the Aborted path alone - a path no BMP message
-   takes - so a lost connection leaves it behind. *)
+   report of the router's state machine: the change of state of an accepted
+   Initiation message, or the hard-parse-failure count of anything else a new
+   session sends (BmpState::process_msg reports every invalid message) - that is,
+   by the first BMP message of the session. read_from_router's post-loop cleanup
+   removes it (fix 8a86f45). A connected router that has not spoken yet has none. *)
 Definition uc_step (u : ucount) (o : wop) : ucount :=
   match o with
   | WConnect k =>
@@ -29,9 +29,9 @@ Definition uc_step (u : ucount) (o : wop) : ucount :=
       else MkUc ({[k]} ∪ uc_live u) (uc_known u) (uc_accepted u + 1) (uc_lost u)
   | WDisconnect k =>
       if bool_decide (k ∈ uc_live u)
-      then MkUc (uc_live u ∖ {[k]}) (uc_known u) (uc_accepted u) (uc_lost u + 1)
+      then MkUc (uc_live u ∖ {[k]}) (uc_known u ∖ {[k]}) (uc_accepted u) (uc_lost u + 1)
       else u
-  | WMsg k MInit =>
+  | WMsg k _ =>
       if bool_decide (k ∈ uc_live u)
       then MkUc (uc_live u) ({[k]} ∪ uc_known u) (uc_accepted u) (uc_lost u)
       else u
@@ -40,43 +40,13 @@ Definition uc_step (u : ucount) (o : wop) : ucount :=
 
 Definition uc_run (u : ucount) (l : list wop) : ucount := fold_left uc_step l u.
 
-(* A connection made after a configuration reload (known finding C01-2): the
-   accept loop counts it, the router handler's gate clone cannot attach itself
-   to the reconfigured gate (Gate::process, Reconfigure: the command receiver is
-   replaced, the command sender handed to clones is not), its command channel
-   closes, BmpStream::next reports termination and read_from_router goes
-   straight to its cleanup: accepted and lost at once, no message is read. *)
-Definition uc_dropped (u : ucount) : ucount :=
-  MkUc (uc_live u) (uc_known u) (uc_accepted u + 1) (uc_lost u + 1).
+(* A configuration reload (ops L / H of the engine) is no operation here: the
+   unit keeps its sessions and counters, and since fix fde831a (finding
+   C13-reload-drops: the reconfigured gate handed the command sender of its old,
+   dropped channel to new clones, so every connection made after a reload was
+   accepted and lost at once) later connections are ordinary WConnect steps. *)
 
 (* "the number of BMP routers connected to this unit" (help text of the gauge) *)
 Definition uc_connected_spec (u : ucount) : N := N.of_nat (size (uc_live u)).
 (* what the code renders: the size of the metrics map *)
 Definition uc_connected_code (u : ucount) : N := N.of_nat (size (uc_known u)).
-
-(* ---- per-router series of a router that reconnects. The router id is reused
-   (find_existing_bmp_router), the label of its series therefore too, and the
-   RouterBmpMetrics entry of the lost session is still there: counters and the
-   fetch_add/fetch_sub gauges continue from where the lost session left them;
-   the pending-EoR gauge is written with `store` and shows the lost session's
-   value until the new session's first write. ---- *)
-Definition mx_zero : metrics := MkMetrics 0 0 0 0 0 0 0 0 0.
-
-(* what the code shows: `c` = what earlier sessions left, `m` = the current session counted from zero *)
-Definition mx_code (c m : metrics) : metrics :=
-  MkMetrics (m_state m) (m_prefixes c + m_prefixes m) (m_unknown_peer c + m_unknown_peer m)
-            (m_unprocessable c + m_unprocessable m) (m_ann c + m_ann m) (m_wd c + m_wd m)
-            (m_up c + m_up m) (m_eorcap c + m_eorcap m) (m_dumping m).
-
-(* what C15 asks for: counters count every event of that router, gauges describe the session that exists *)
-Definition mx_spec (c m : metrics) : metrics :=
-  MkMetrics (m_state m) (m_prefixes c + m_prefixes m) (m_unknown_peer c + m_unknown_peer m)
-            (m_unprocessable c + m_unprocessable m) (m_ann c + m_ann m) (m_wd c + m_wd m)
-            (m_up m) (m_eorcap m) (m_dumping m).
-
-(* values the pending-EoR gauge may show: within a session it equals the table
-   count after every write (C15, gauges_ok) and every change of the count is a
-   write, so a non-zero count is shown as it is; a zero count may still be
-   hidden behind any value an earlier session left *)
-Definition mx_dumping_options (stale : list N) (cur : N) : list N :=
-  if N.eqb cur 0 then (if existsb (N.eqb 0) stale then stale else stale ++ [0%N]) else [cur].
